@@ -310,6 +310,24 @@ theorem C17_result_matches_doc_serial (t : T) (hs : SerOk t = true) (hc : Clean 
     trOf (run t {} (.calls [.start] :: ops)).2.log = (visit t).map Sum.inl ++ [Sum.inr r] :=
   result_matches_doc_run t hs hc ops hcf r hr
 
+/-- **liveness (L) for the same class — "finishes exactly once with the documented result"**: `cost t`
+(one per SleepAction leaf + one per child of every composite) is a progress measure.  Start the freshly
+built tree, then ANY sequence of loop passes and clock steps that contains at least `cost t + 1` BIG ones —
+a clock step of at least `M` ms, where `M` bounds every SleepAction delay of the tree (`maxDelay t ≤ M`);
+for a tree without delays `M = 0`, and then every loop pass and every clock step is big.  Small passes
+and clock steps may be interleaved in any number and position (a fair schedule), and the schedule may go
+on for as long as it likes afterwards.  Then the evaluator assigns a result `r` and the observable trace
+IS the complete visit order followed by exactly ONE finish notification carrying `r`. -/
+theorem C17_finishes_exactly_once (t : T) (hs : SerOk t = true) (hc : Clean t = true) (ops : List Op)
+    (hcf : ops.all cfOp = true) (M : Nat) (hM : maxDelay t ≤ M) (hbig : cost t + 1 ≤ bigCount M ops) :
+    ∃ r, eval t = some r ∧ trOf (run t {} (.calls [.start] :: ops)).2.log = (visit t).map Sum.inl ++ [Sum.inr r] :=
+  finishes_once_run t hs hc ops hcf M hM hbig
+
+/-- by-product: the evaluator is total on the covered class (it has a fuel-free definition by structural
+recursion, but its value could be `none` = "does not finish"; it never is for these trees) -/
+theorem C17_eval_total_serial (t : T) (hs : SerOk t = true) (hc : Clean t = true) : ∃ r, eval t = some r :=
+  eval_total t hs hc
+
 /-- a covered tree: Sequence[ F1(succ), IfElse(F3 fail ? F4 : Sleep5), Wrapper-invert(F7 fail) ] -/
 def docTree : T :=
   comp 0 (.seq .anyFail) [leaf 1 (.func true none),
@@ -318,7 +336,8 @@ def docTree : T :=
 
 example : SerOk docTree = true ∧ Clean docTree = true ∧ eval docTree = some (true, 2) ∧ visit docTree = [1, 3, 7] := by
   decide +kernel
-/-- … and the run really gets there (liveness on this instance); one pass earlier it is a strict prefix -/
+example : cost docTree = 8 ∧ maxDelay docTree = 111 := by decide +kernel
+/-- on this instance; one pass earlier it is a strict prefix -/
 example : trOf (run docTree {} [.calls [.start], .pass, .adv 200, .pass, .pass, .pass]).2.log = [Sum.inl 1, Sum.inl 3, Sum.inl 7] := by
   decide +kernel
 example : trOf (run docTree {} [.calls [.start], .pass, .pass, .adv 200, .pass, .pass, .pass, .pass, .pass]).2.log =
@@ -349,10 +368,8 @@ example : (Exec.xrun {} [.append .dummy 2, .append .dummy 2, .append .dummy 0, .
 
 /-! ### OPEN (stated, not proved; carried by the executable model + correspondence + monitors)
 
--- OPEN C17_result_matches_doc, remaining milestones (closed: `C17_result_matches_doc_serial`):
---   * liveness for the covered class ("the complete trace IS reached"): for synchronous leaves after
---     size-many passes, for sleeps once the clock has passed the sum of the delays.  Missing lemma: a
---     measure on `Good` runs (each op with the child done delivers; `runU` returns a strict suffix).
+-- OPEN C17_result_matches_doc, remaining milestones (closed: `C17_result_matches_doc_serial`,
+--   `C17_finishes_exactly_once`):
 --   * M4 Loop / LoopIf / Repeat: `gen` assumes `resets = []`.  Missing: (i) `KSpec`/`gen` with reset lists,
 --     using `reset_wf` (a reset child is `Clean`); (ii) shape preservation — `eval`/`visit`/`Good` depend on
 --     the static skeleton only, so `Good` must be stated for every `Clean` tree with the skeleton of the
